@@ -47,6 +47,7 @@ type world struct {
 	dms        map[int]olric.DMap
 	fragOp     bool // an operation was issued while a partition had a previous owner holding data
 	disturbed  int  // operations that ended in a transport error (membership was not as stable as assumed)
+	wedged     bool // a call never returned: a fragment lock is held forever
 }
 
 func (w *world) client(m *cluster.Member) olric.DMap {
@@ -78,6 +79,21 @@ func classify(err error) string {
 		return "notfound"
 	}
 	return "err:" + err.Error()
+}
+
+var errHang = fmt.Errorf("hang: the call did not return within 12 s")
+
+// guarded runs f under a watchdog: a call that never returns (a wedged fragment lock) must not take the
+// driver with it.
+func guarded(f func() error) error {
+	done := make(chan error, 1)
+	go func() { done <- f() }()
+	select {
+	case err := <-done:
+		return err
+	case <-time.After(12 * time.Second):
+		return errHang
+	}
 }
 
 // transport reports whether an error is a transport-level failure (the outcome of the operation is open).
@@ -142,7 +158,7 @@ func (w *world) waitViews() bool {
 func (w *world) ops(n int, phase string) {
 	ctx := context.Background()
 	live := w.c.Live()
-	for j := 0; j < n; j++ {
+	for j := 0; j < n && !w.wedged; j++ {
 		k := w.keys[w.rng.Intn(len(w.keys))]
 		m := live[w.rng.Intn(len(live))]
 		d := w.client(m)
@@ -153,7 +169,10 @@ func (w *world) ops(n int, phase string) {
 		if w.rng.Intn(10) < 7 {
 			w.vseq++
 			v := fmt.Sprintf("v%d-%040d", w.vseq, 0)
-			err := d.Put(ctx, k, v)
+			err := guarded(func() error { return d.Put(ctx, k, v) })
+			if err == errHang {
+				w.wedged = true
+			}
 			if transport(err) {
 				w.disturbed++
 			}
@@ -163,7 +182,10 @@ func (w *world) ops(n int, phase string) {
 				w.sinceLeave[k] = true
 			}
 		} else {
-			_, err := d.Delete(ctx, k)
+			err := guarded(func() error { _, e := d.Delete(ctx, k); return e })
+			if err == errHang {
+				w.wedged = true
+			}
 			if transport(err) {
 				w.disturbed++
 			}
@@ -172,11 +194,75 @@ func (w *world) ops(n int, phase string) {
 	}
 }
 
+// expiring writes keys with a 40 ms time-to-live, lets them expire and runs the background eviction routine
+// on every member for every partition - also on members that are previous owners of a partition.
+func (w *world) plantExpiring(phase string) ([]string, time.Time) {
+	ctx := context.Background()
+	live := w.c.Live()
+	var ks []string
+	for i := 0; i < 8; i++ {
+		w.vseq++
+		k := fmt.Sprintf("ttl%d", w.vseq)
+		ks = append(ks, k)
+		found := false
+		for _, x := range w.keys {
+			if x == k {
+				found = true
+			}
+		}
+		if !found {
+			w.keys = append(w.keys, k)
+		}
+		v := fmt.Sprintf("t%d", w.vseq)
+		err := w.client(live[w.rng.Intn(len(live))]).Put(ctx, k, v, olric.PX(400*time.Millisecond))
+		w.w.Emit(trace.Ev{"t": "op", "op": "put", "k": k, "v": v, "ret": classify(err), "indeterminate": transport(err), "via": 0, "phase": phase})
+	}
+	return ks, time.Now().Add(410 * time.Millisecond)
+}
+
+func (w *world) reapExpired(ks []string, deadline time.Time, phase string) {
+	live := w.c.Live()
+	if d := time.Until(deadline); d > 0 {
+		time.Sleep(d)
+	}
+	for _, k := range ks {
+		// expired: the same as deleted for every later operation
+		w.w.Emit(trace.Ev{"t": "op", "op": "del", "k": k, "v": "", "ret": "ok", "indeterminate": false, "via": -1, "phase": phase + " (expired)"})
+	}
+	for _, m := range live {
+		done := make(chan struct{})
+		go func(m *cluster.Member) {
+			for p := uint64(0); p < w.c.Opts.Partitions; p++ {
+				m.V.DMap.VerifEvictOnce(p)
+			}
+			close(done)
+		}(m)
+		ret := "ok"
+		select {
+		case <-done:
+		case <-time.After(6 * time.Second):
+			ret = "hang"
+		}
+		w.evals++
+		w.w.Emit(trace.Ev{"t": "evict", "m": m.Index, "ret": ret, "phase": phase})
+		if ret != "ok" {
+			<-done // the client's read time-out ends the wait eventually
+		}
+	}
+}
+
 func (w *world) readAll(phase string) {
 	ctx := context.Background()
 	for _, k := range w.keys {
 		for _, m := range w.c.Live() {
-			g, err := w.client(m).Get(ctx, k)
+			if w.wedged {
+				return
+			}
+			var g *olric.GetResponse
+			err := guarded(func() error { var e error; g, e = w.client(m).Get(ctx, k); return e })
+			if err == errHang {
+				w.wedged = true
+			}
 			v, ret := "nil", "notfound"
 			if err == nil {
 				ret = "val"
@@ -301,112 +387,127 @@ func TestC03(t *testing.T) {
 		go func() {
 			defer wg.Done()
 			defer func() { <-sem }()
-			rng := rand.New(rand.NewSource(seed))
-			R := 1 + rng.Intn(2)
-			n0 := 1 + rng.Intn(3)
-			T := []int{512, 512, 0}[rng.Intn(3)]
-			// a private writer: events are collected and appended to the shared trace at the end
 			path := filepath.Join(out, fmt.Sprintf("c03-%d.part", s))
 			pw, err := trace.New(path)
 			if err != nil {
 				panic(err)
 			}
-			c, err := cluster.Start(cluster.Options{Replicas: R, Partitions: 7, TableSize: T, Manual: true}, n0)
-			if err != nil {
-				panic(err)
-			}
-			label := fmt.Sprintf("R=%d start=%d T=%d", R, n0, T)
-			w := &world{c: c, w: pw, rng: rng, dm: "reb", R: R, hadB: map[string]bool{}, sinceLeave: map[string]bool{}, dms: map[int]olric.DMap{}}
-			for i := 0; i < 24; i++ {
-				w.keys = append(w.keys, fmt.Sprintf("k%d", i))
-			}
-			pw.Emit(trace.Ev{"t": "reset", "seq": s + 1, "cfg": label})
-			w.ops(60, "initial")
-			w.readAll("initial")
-			events := 1 + rng.Intn(3)
-			var desc []string
-			ok := true
-			for e := 0; e < events && ok; e++ {
-				canLeave := R >= 2 && len(c.Live()) > R
-				if canLeave && rng.Intn(3) == 0 {
-					// a leave: only keys whose newest version is on R distinct members stay asserted
-					if err := c.WaitStable(15*time.Second, false); err != nil {
+			finished := make(chan struct{})
+			go func() {
+				defer close(finished)
+				rng := rand.New(rand.NewSource(seed))
+				R := 1 + rng.Intn(2)
+				n0 := 1 + rng.Intn(3)
+				T := []int{512, 512, 0}[rng.Intn(3)]
+				c, err := cluster.Start(cluster.Options{Replicas: R, Partitions: 7, TableSize: T, Manual: true}, n0)
+				if err != nil {
+					panic(err)
+				}
+				label := fmt.Sprintf("R=%d start=%d T=%d", R, n0, T)
+				w := &world{c: c, w: pw, rng: rng, dm: "reb", R: R, hadB: map[string]bool{}, sinceLeave: map[string]bool{}, dms: map[int]olric.DMap{}}
+				for i := 0; i < 24; i++ {
+					w.keys = append(w.keys, fmt.Sprintf("k%d", i))
+				}
+				pw.Emit(trace.Ev{"t": "reset", "seq": s + 1, "cfg": label})
+				w.ops(60, "initial")
+				w.readAll("initial")
+				events := 1 + rng.Intn(3)
+				var desc []string
+				ok := true
+				for e := 0; e < events && ok && !w.wedged; e++ {
+					canLeave := R >= 2 && len(c.Live()) > R
+					if canLeave && rng.Intn(3) == 0 {
+						// a leave: only keys whose newest version is on R distinct members stay asserted
+						if err := c.WaitStable(15*time.Second, false); err != nil {
+							ok = false
+							break
+						}
+						w.beforeLoss(nil)
+						victim := c.Live()[rng.Intn(len(c.Live()))]
+						graceful := rng.Intn(2) == 0
+						desc = append(desc, fmt.Sprintf("leave(%d,%v)", victim.Index, graceful))
+						w.step(desc[len(desc)-1])
+						delete(w.dms, victim.Index)
+						c.Stop(victim, graceful)
+						w.leaves++
+						w.sinceLeave = map[string]bool{}
+						w.hadB = map[string]bool{}
+						if !w.waitViews() {
+							ok = false
+							break
+						}
+					} else if len(c.Live()) < 5 {
+						desc = append(desc, "join")
+						ttlKeys, ttlDeadline := w.plantExpiring("before the join")
+						w.step("join")
+						if _, err := c.AddMember(); err != nil {
+							panic(err)
+						}
+						if !w.waitViews() {
+							ok = false
+							break
+						}
+						// the keys expire while the previous owner of their partition still holds them
+						w.reapExpired(ttlKeys, ttlDeadline, "after push, before any move")
+					} else {
+						continue
+					}
+					// after the push, before any table moved
+					w.readAll("after push, before any move")
+					w.ops(12, "after push, before any move")
+					w.readAll("after push and operations")
+					for mv := 1; mv <= 2; mv++ {
+						c.Balance()
+						if !w.waitViews() {
+							ok = false
+							break
+						}
+						w.step(fmt.Sprintf("balancer run %d", mv))
+						w.readAll(fmt.Sprintf("after balancer run %d", mv))
+						w.ops(8, fmt.Sprintf("between table moves (%d)", mv))
+						w.readAll(fmt.Sprintf("after operations between moves (%d)", mv))
+					}
+					if !ok {
+						break
+					}
+					if err := c.WaitStable(20*time.Second, true); err != nil {
+						mu.Lock()
+						sum.NotStabilised++
+						sum.Notes = append(sum.Notes, fmt.Sprintf("scenario %d %v: %v", s+1, desc, err))
+						mu.Unlock()
 						ok = false
 						break
 					}
-					w.beforeLoss(nil)
-					victim := c.Live()[rng.Intn(len(c.Live()))]
-					graceful := rng.Intn(2) == 0
-					desc = append(desc, fmt.Sprintf("leave(%d,%v)", victim.Index, graceful))
-					w.step(desc[len(desc)-1])
-					delete(w.dms, victim.Index)
-					c.Stop(victim, graceful)
-					w.leaves++
-					w.sinceLeave = map[string]bool{}
-					w.hadB = map[string]bool{}
-					if !w.waitViews() {
-						ok = false
-						break
-					}
-				} else if len(c.Live()) < 5 {
-					desc = append(desc, "join")
-					w.step("join")
-					if _, err := c.AddMember(); err != nil {
-						panic(err)
-					}
-					if !w.waitViews() {
-						ok = false
-						break
-					}
-				} else {
-					continue
+					w.step("stable")
+					w.readAll("stable")
+					w.copyCounts("stable", true)
+					w.ops(10, "after stabilisation")
+					w.readAll("after stabilisation")
 				}
-				// after the push, before any table moved
-				w.readAll("after push, before any move")
-				w.ops(12, "after push, before any move")
-				w.readAll("after push and operations")
-				for mv := 1; mv <= 2; mv++ {
-					c.Balance()
-					if !w.waitViews() {
-						ok = false
-						break
-					}
-					w.step(fmt.Sprintf("balancer run %d", mv))
-					w.readAll(fmt.Sprintf("after balancer run %d", mv))
-					w.ops(8, fmt.Sprintf("between table moves (%d)", mv))
-					w.readAll(fmt.Sprintf("after operations between moves (%d)", mv))
+				c.ShutdownAsync()
+				mu.Lock()
+				sum.Evaluations += w.evals
+				sum.Disturbed += w.disturbed
+				sum.Scenarios++
+				sum.Configs = append(sum.Configs, label+" "+fmt.Sprint(desc))
+				if ok && w.fragOp {
+					sum.DistinctNontrivial++
 				}
-				if !ok {
-					break
+				if len(sum.Samples) < 2 {
+					sum.Samples = append(sum.Samples, map[string]any{"cfg": label, "events": desc})
 				}
-				if err := c.WaitStable(20*time.Second, true); err != nil {
-					mu.Lock()
-					sum.NotStabilised++
-					sum.Notes = append(sum.Notes, fmt.Sprintf("scenario %d %v: %v", s+1, desc, err))
-					mu.Unlock()
-					ok = false
-					break
-				}
-				w.step("stable")
-				w.readAll("stable")
-				w.copyCounts("stable", true)
-				w.ops(10, "after stabilisation")
-				w.readAll("after stabilisation")
+				mu.Unlock()
+			}()
+			select {
+			case <-finished:
+			case <-time.After(150 * time.Second):
+				// some call into a member never returned (a fragment lock held forever): the scenario is over
+				pw.Emit(trace.Ev{"t": "op", "op": "scenario", "k": "-", "v": "", "ret": "hang: the scenario did not finish within 150 s; a member is wedged", "indeterminate": false, "via": -1, "phase": "watchdog"})
+				mu.Lock()
+				sum.Scenarios++
+				mu.Unlock()
 			}
 			pw.Close()
-			c.ShutdownAsync()
-			mu.Lock()
-			sum.Evaluations += w.evals
-			sum.Disturbed += w.disturbed
-			sum.Scenarios++
-			sum.Configs = append(sum.Configs, label+" "+fmt.Sprint(desc))
-			if ok && w.fragOp {
-				sum.DistinctNontrivial++
-			}
-			if len(sum.Samples) < 2 {
-				sum.Samples = append(sum.Samples, map[string]any{"cfg": label, "events": desc})
-			}
-			mu.Unlock()
 		}()
 	}
 	wg.Wait()
@@ -445,144 +546,156 @@ func TestC02(t *testing.T) {
 		go func() {
 			defer wg.Done()
 			defer func() { <-sem }()
-			rng := rand.New(rand.NewSource(seed))
-			R := 2 + rng.Intn(2)
-			N := R + 1 + rng.Intn(2)
-			if N > 5 {
-				N = 5
-			}
-			rr := rng.Intn(2) == 0
 			path := filepath.Join(out, fmt.Sprintf("c02-%d.part", s))
 			pw, err := trace.New(path)
 			if err != nil {
 				panic(err)
 			}
-			c, err := cluster.Start(cluster.Options{Replicas: R, Partitions: 13, ReadRepair: rr, Manual: true}, N)
-			if err != nil {
-				panic(err)
-			}
-			label := fmt.Sprintf("N=%d R=%d read-repair=%v", N, R, rr)
-			w := &world{c: c, w: pw, rng: rng, dm: "dur", R: R, hadB: map[string]bool{}, sinceLeave: map[string]bool{}, dms: map[int]olric.DMap{}}
-			for i := 0; i < 30; i++ {
-				w.keys = append(w.keys, fmt.Sprintf("k%d", i))
-			}
-			pw.Emit(trace.Ev{"t": "reset", "seq": s + 1, "cfg": label})
-			// every asserted key is written after the cluster reached its final size
-			w.ops(90, "healthy")
-			w.readAll("healthy")
-			nfail := 1 + rng.Intn(R-1)
-			var desc []string
-			ok := true
-			heldCopy := false
-			for f := 0; f < nfail && ok; f++ {
-				if err := c.WaitStable(15*time.Second, false); err != nil {
-					ok = false
-					break
+			finished := make(chan struct{})
+			go func() {
+				defer close(finished)
+				rng := rand.New(rand.NewSource(seed))
+				R := 2 + rng.Intn(2)
+				N := R + 1 + rng.Intn(2)
+				if N > 5 {
+					N = 5
 				}
-				w.beforeLoss(nil)
-				live := c.Live()
-				var victim *cluster.Member
-				switch rng.Intn(3) {
-				case 0:
-					victim = live[0] // the oldest member is the coordinator
-				default:
-					victim = live[rng.Intn(len(live))]
+				rr := rng.Intn(2) == 0
+				c, err := cluster.Start(cluster.Options{Replicas: R, Partitions: 13, ReadRepair: rr, Manual: true}, N)
+				if err != nil {
+					panic(err)
 				}
-				// did the victim hold a copy of an asserted key?
-				for _, k := range w.keys {
-					for _, kind := range []partitions.Kind{partitions.PRIMARY, partitions.BACKUP} {
-						if _, has := victim.V.DMap.VerifEntry(w.dm, k, kind); has {
-							heldCopy = true
-						}
-					}
+				label := fmt.Sprintf("N=%d R=%d read-repair=%v", N, R, rr)
+				w := &world{c: c, w: pw, rng: rng, dm: "dur", R: R, hadB: map[string]bool{}, sinceLeave: map[string]bool{}, dms: map[int]olric.DMap{}}
+				for i := 0; i < 30; i++ {
+					w.keys = append(w.keys, fmt.Sprintf("k%d", i))
 				}
-				graceful := rng.Intn(2) == 0
-				during := rng.Intn(2) == 0
-				desc = append(desc, fmt.Sprintf("stop(member %d coordinator=%v graceful=%v during-workload=%v)", victim.Index, victim == live[0], graceful, during))
-				w.step(desc[len(desc)-1])
-				delete(w.dms, victim.Index)
-				stopWorkload := make(chan struct{})
-				var wl sync.WaitGroup
-				if during {
-					// a workload runs while the member goes away: what it touches is no longer asserted
-					// (not acknowledged in a healthy cluster); everything else must be unaffected
-					touched := w.keys[20:]
-					for _, k := range touched {
-						pw.Emit(trace.Ev{"t": "forget", "k": k, "why": "operated on while a member was stopping"})
+				pw.Emit(trace.Ev{"t": "reset", "seq": s + 1, "cfg": label})
+				// every asserted key is written after the cluster reached its final size
+				w.ops(90, "healthy")
+				w.readAll("healthy")
+				nfail := 1 + rng.Intn(R-1)
+				var desc []string
+				ok := true
+				heldCopy := false
+				for f := 0; f < nfail && ok; f++ {
+					if err := c.WaitStable(15*time.Second, false); err != nil {
+						ok = false
+						break
 					}
-					survivors := []*cluster.Member{}
-					for _, m := range live {
-						if m != victim {
-							survivors = append(survivors, m)
-						}
+					w.beforeLoss(nil)
+					live := c.Live()
+					var victim *cluster.Member
+					switch rng.Intn(3) {
+					case 0:
+						victim = live[0] // the oldest member is the coordinator
+					default:
+						victim = live[rng.Intn(len(live))]
 					}
-					clients := []olric.DMap{}
-					for _, m := range survivors {
-						clients = append(clients, w.client(m))
-					}
-					wl.Add(1)
-					go func() {
-						defer wl.Done()
-						r2 := rand.New(rand.NewSource(seed + 7))
-						ctx := context.Background()
-						for {
-							select {
-							case <-stopWorkload:
-								return
-							default:
-							}
-							k := touched[r2.Intn(len(touched))]
-							d := clients[r2.Intn(len(clients))]
-							if r2.Intn(3) == 0 {
-								d.Delete(ctx, k)
-							} else {
-								d.Put(ctx, k, fmt.Sprintf("w%d", r2.Intn(1000)))
+					// did the victim hold a copy of an asserted key?
+					for _, k := range w.keys {
+						for _, kind := range []partitions.Kind{partitions.PRIMARY, partitions.BACKUP} {
+							if _, has := victim.V.DMap.VerifEntry(w.dm, k, kind); has {
+								heldCopy = true
 							}
 						}
-					}()
-					time.Sleep(time.Duration(rng.Intn(20)) * time.Millisecond)
+					}
+					graceful := rng.Intn(2) == 0
+					during := rng.Intn(2) == 0
+					desc = append(desc, fmt.Sprintf("stop(member %d coordinator=%v graceful=%v during-workload=%v)", victim.Index, victim == live[0], graceful, during))
+					w.step(desc[len(desc)-1])
+					delete(w.dms, victim.Index)
+					stopWorkload := make(chan struct{})
+					var wl sync.WaitGroup
+					if during {
+						// a workload runs while the member goes away: what it touches is no longer asserted
+						// (not acknowledged in a healthy cluster); everything else must be unaffected
+						touched := w.keys[20:]
+						for _, k := range touched {
+							pw.Emit(trace.Ev{"t": "forget", "k": k, "why": "operated on while a member was stopping"})
+						}
+						survivors := []*cluster.Member{}
+						for _, m := range live {
+							if m != victim {
+								survivors = append(survivors, m)
+							}
+						}
+						clients := []olric.DMap{}
+						for _, m := range survivors {
+							clients = append(clients, w.client(m))
+						}
+						wl.Add(1)
+						go func() {
+							defer wl.Done()
+							r2 := rand.New(rand.NewSource(seed + 7))
+							ctx := context.Background()
+							for {
+								select {
+								case <-stopWorkload:
+									return
+								default:
+								}
+								k := touched[r2.Intn(len(touched))]
+								d := clients[r2.Intn(len(clients))]
+								if r2.Intn(3) == 0 {
+									d.Delete(ctx, k)
+								} else {
+									d.Put(ctx, k, fmt.Sprintf("w%d", r2.Intn(1000)))
+								}
+							}
+						}()
+						time.Sleep(time.Duration(rng.Intn(20)) * time.Millisecond)
+					}
+					c.Stop(victim, graceful)
+					stable := w.waitViews()
+					time.Sleep(time.Duration(rng.Intn(60)) * time.Millisecond)
+					close(stopWorkload)
+					wl.Wait()
+					if stable {
+						stable = c.WaitStable(20*time.Second, false) == nil
+					}
+					if !stable {
+						mu.Lock()
+						sum.NotStabilised++
+						sum.Notes = append(sum.Notes, fmt.Sprintf("scenario %d %v: did not stabilise", s+1, desc))
+						mu.Unlock()
+						ok = false
+						break
+					}
+					w.step("stable after the stop")
+					w.readAll("after the stop")
 				}
-				c.Stop(victim, graceful)
-				stable := w.waitViews()
-				time.Sleep(time.Duration(rng.Intn(60)) * time.Millisecond)
-				close(stopWorkload)
-				wl.Wait()
-				if stable {
-					stable = c.WaitStable(20*time.Second, false) == nil
+				if ok {
+					// plain operations after the failure behave as in a healthy cluster
+					w.ops(40, "after the failure")
+					w.readAll("after operations on the surviving copies")
+					if err := c.WaitStable(15*time.Second, false); err == nil {
+						w.readAll("finally")
+					}
 				}
-				if !stable {
-					mu.Lock()
-					sum.NotStabilised++
-					sum.Notes = append(sum.Notes, fmt.Sprintf("scenario %d %v: did not stabilise", s+1, desc))
-					mu.Unlock()
-					ok = false
-					break
+				c.ShutdownAsync()
+				mu.Lock()
+				sum.Evaluations += w.evals
+				sum.Disturbed += w.disturbed
+				sum.Scenarios++
+				sum.Configs = append(sum.Configs, label+" "+fmt.Sprint(desc))
+				if ok && heldCopy {
+					sum.DistinctNontrivial++
 				}
-				w.step("stable after the stop")
-				w.readAll("after the stop")
-			}
-			if ok {
-				// plain operations after the failure behave as in a healthy cluster
-				w.ops(40, "after the failure")
-				w.readAll("after operations on the surviving copies")
-				if err := c.WaitStable(15*time.Second, false); err == nil {
-					w.readAll("finally")
+				if len(sum.Samples) < 2 {
+					sum.Samples = append(sum.Samples, map[string]any{"cfg": label, "failures": desc})
 				}
+				mu.Unlock()
+			}()
+			select {
+			case <-finished:
+			case <-time.After(180 * time.Second):
+				pw.Emit(trace.Ev{"t": "op", "op": "scenario", "k": "-", "v": "", "ret": "hang: the scenario did not finish within 180 s; a member is wedged", "indeterminate": false, "via": -1, "phase": "watchdog"})
+				mu.Lock()
+				sum.Scenarios++
+				mu.Unlock()
 			}
 			pw.Close()
-			c.ShutdownAsync()
-			mu.Lock()
-			sum.Evaluations += w.evals
-			sum.Disturbed += w.disturbed
-			sum.Scenarios++
-			sum.Configs = append(sum.Configs, label+" "+fmt.Sprint(desc))
-			if ok && heldCopy {
-				sum.DistinctNontrivial++
-			}
-			if len(sum.Samples) < 2 {
-				sum.Samples = append(sum.Samples, map[string]any{"cfg": label, "failures": desc})
-			}
-			mu.Unlock()
 		}()
 	}
 	wg.Wait()
